@@ -444,3 +444,13 @@ package rag
 //@   loop 0:
 //@     invariant 0 <= i && i <= len(runes)
 //@     decreases len(runes) - i
+
+// ---- C13: boundary positions are BYTE offsets into the joined text (SplitToSize and FindSplitPointAt slice with
+// them): each block advances the position by the byte length of its text plus the two-byte separator ----
+//@ func (*BoundaryDetector) DetectBoundaries results (res)
+//@   property C13
+//@   flags nosafety
+//@   callsite detectInternalBoundaries(b, pos, idx) requires internal_boundaries_are_offset_by_the_position: pos == position && idx == i
+//@   loop 0:
+//@     step position_advances_by_bytes: position == prev(position) + len(block.Text) + (i < len(blocks) - 1 ? 2 : 0)
+//@     step boundary_after_the_block_is_at_the_position: len(boundaries) > prev(len(boundaries)) && boundaryType != BoundaryNone ==> boundaries[len(boundaries)-1].Position == position
